@@ -125,6 +125,59 @@ try:
 except Exception as e:      # noqa
     print("hierarchy part not run: %s: %s" % (type(e).__name__, e))
 
+# ---- building relaxation tensors / rate matrices leaves Hamiltonian and system-bath interaction unchanged and is repeatable ---------
+try:
+    from quantarhei.qm import (RedfieldRelaxationTensor, TDRedfieldRelaxationTensor, FoersterRelaxationTensor,
+                               TDFoersterRelaxationTensor, RedfieldFoersterRelaxationTensor, RedfieldRateMatrix,
+                               FoersterRateMatrix)
+
+    def _system3():
+        ta_ = qr.TimeAxis(0.0, 300, 1.0)
+        mols_ = []
+        with qr.energy_units("1/cm"):
+            for k_ in range(3):
+                m_ = qr.Molecule([0.0, 12000.0 + 150.0 * k_])
+                m_.set_transition_environment((0, 1), qr.CorrelationFunction(ta_, dict(ftype="OverdampedBrownian", reorg=30.0 + 5 * k_,
+                                                                                      cortime=60.0, T=300.0, matsubara=20)))
+                mols_.append(m_)
+            ag_ = qr.Aggregate(mols_)
+            ag_.set_resonance_coupling(0, 1, 80.0)
+            ag_.set_resonance_coupling(1, 2, 30.0)
+        ag_.build()
+        return ag_.get_Hamiltonian(), ag_.get_SystemBathInteraction()
+
+    def _snap(h_, s_):
+        return (numpy.array(h_.data).copy(), numpy.array(s_.KK).copy(), [numpy.array(s_.CC.get_coft(i_, i_)).copy() for i_ in range(s_.N)],
+                getattr(h_, "has_rwa", None), h_.get_current_basis())
+
+    def _same(a_, b_):
+        return numpy.array_equal(a_[0], b_[0]) and numpy.array_equal(a_[1], b_[1]) and a_[3:] == b_[3:] \
+            and all(numpy.array_equal(x_, y_) for x_, y_ in zip(a_[2], b_[2]))
+    ham3, sbi3 = _system3()
+    makers = {"Redfield": lambda: RedfieldRelaxationTensor(ham3, sbi3),
+              "Redfield (operators)": lambda: RedfieldRelaxationTensor(ham3, sbi3, as_operators=True),
+              "Redfield (cut-off)": lambda: RedfieldRelaxationTensor(ham3, sbi3, cutoff_time=100.0),
+              "TDRedfield": lambda: TDRedfieldRelaxationTensor(ham3, sbi3),
+              "Foerster": lambda: FoersterRelaxationTensor(ham3, sbi3),
+              "Foerster (pure dephasing)": lambda: FoersterRelaxationTensor(ham3, sbi3, pure_dephasing=True),
+              "TDFoerster": lambda: TDFoersterRelaxationTensor(ham3, sbi3),
+              "Redfield-Foerster": lambda: RedfieldFoersterRelaxationTensor(ham3, sbi3, coupling_cutoff=50.0),
+              "Redfield rate matrix": lambda: RedfieldRateMatrix(ham3, sbi3),
+              "Foerster rate matrix": lambda: FoersterRateMatrix(ham3, sbi3)}
+    for name_, mk_ in makers.items():
+        s0_ = _snap(ham3, sbi3)
+        t1_ = mk_()
+        d1_ = numpy.array(t1_.Lm if getattr(t1_, "as_operators", False) else t1_.data).copy()
+        s1_ = _snap(ham3, sbi3)
+        t2_ = mk_()
+        d2_ = numpy.array(t2_.Lm if getattr(t2_, "as_operators", False) else t2_.data).copy()
+        if not _same(s0_, s1_) or not _same(s1_, _snap(ham3, sbi3)):
+            bad.append("building %s changes the Hamiltonian or the system-bath interaction passed in" % name_)
+        if not numpy.array_equal(d1_, d2_):
+            bad.append("building %s twice from the same inputs gives different results (max deviation %.3e)" % (name_, abs(d1_ - d2_).max()))
+except Exception as e_:      # noqa
+    bad.append("tensor-construction part raised %s: %s" % (type(e_).__name__, str(e_)[:120]))
+
 for b_ in bad:
     print("VIOLATED:", b_)
 print("C15 oracle: %d violations" % len(bad))
